@@ -1,0 +1,35 @@
+//go:build verif
+
+// Contracts for govc (contract-based deductive verification, /verif). Comment-only file:
+// it is compiled only under the build tag "verif" and contains no code.
+
+package cluster_table_conf
+
+// ---- C13: a malformed (but decodable) cluster table is rejected with an error, never with a crash ----
+
+//@ func BackendConfCheck
+//@   props C13
+//@   nopanic nil
+//@   modifies nothing
+//@   ensures[an_accepted_backend_has_all_its_fields] result0 == nil ==> conf != nil && conf.Name != nil && conf.Addr != nil && conf.Port != nil && conf.Weight != nil
+
+//@ func (*SubClusterBackend).Check
+//@   props C13
+//@   nopanic nil,index
+//@   requires s != nil
+//@   modifies nothing
+//@   ensures[an_accepted_sub_cluster_has_complete_backends_and_one_with_positive_weight] result0 == nil ==> (forall k int :: 0 <= k && k < len(*s) ==> (*s)[k] != nil && (*s)[k].Weight != nil) && (exists k int :: 0 <= k && k < len(*s) && *(*s)[k].Weight > 0)
+//@   loop 1 invariant[checked_so_far] forall k int :: 0 <= k && k <= rangeindex ==> (*s)[k] != nil && (*s)[k].Weight != nil
+//@   loop 1 invariant[avail_means_a_positive_weight_was_seen] availBackend ==> (exists k int :: 0 <= k && k <= rangeindex && *(*s)[k].Weight > 0)
+
+//@ func AllClusterBackendCheck
+//@   props C13
+//@   nopanic nil,index
+//@   requires conf != nil
+//@   modifies nothing
+
+//@ func ClusterTableConfCheck
+//@   props C13
+//@   nopanic nil,index
+//@   modifies nothing
+//@   ensures[an_accepted_table_has_a_version_and_a_config] result0 == nil ==> conf.Version != nil && conf.Config != nil
